@@ -97,8 +97,11 @@ pub fn row_matches(line: &str, s: &[u8], k: usize, norm: bool, delim: &str) -> R
     Ok(())
 }
 
-fn c04_batch(recs: &[Vec<u8>], k: usize, norm: bool) -> Option<Vec<(String, String)>> {
-    let out = run_oligo(recs, k, norm, 2, " ", false, None);
+fn c04_batch(recs: &[Vec<u8>], k: usize, norm: bool) -> Option<Vec<(String, String)>> { c04_batch_cfg(recs, k, norm, 2, None) }
+
+/// rows of a batch of records for a given worker count and memory ceiling (bytes; None = default)
+fn c04_batch_cfg(recs: &[Vec<u8>], k: usize, norm: bool, threads: usize, memory: Option<usize>) -> Option<Vec<(String, String)>> {
+    let out = run_oligo(recs, k, norm, threads, " ", false, memory);
     let why = match out {
         Err(e) => Some((0usize, e)),
         Ok(text) => {
@@ -116,7 +119,15 @@ fn c04_batch(recs: &[Vec<u8>], k: usize, norm: bool) -> Option<Vec<(String, Stri
             w
         }
     };
-    why.map(|(i, e)| vec![("seq".into(), show(&recs[i.min(recs.len() - 1)])), ("k".into(), k.to_string()), ("norm".into(), norm.to_string()), ("why".into(), e)])
+    why.map(|(i, e)| {
+        let mut v = vec![("seq".into(), show(&recs[i.min(recs.len() - 1)])), ("k".into(), k.to_string()), ("norm".into(), norm.to_string()), ("why".into(), e)];
+        if threads != 2 || memory.is_some() {
+            v.push(("records".into(), recs.iter().map(|r| show(r)).collect::<Vec<_>>().join("|")));
+            v.push(("threads".into(), threads.to_string()));
+            v.push(("memory".into(), memory.map(|m| m.to_string()).unwrap_or_default()));
+        }
+        v
+    })
 }
 
 pub fn c04(o: &Opts) -> Outcome {
@@ -125,7 +136,24 @@ pub fn c04(o: &Opts) -> Outcome {
         let s = unshow(&inp["seq"]);
         let k: usize = inp["k"].parse().unwrap();
         let norm = inp["norm"] == "true";
+        if let Some(t) = inp.get("threads") {
+            let recs: Vec<Vec<u8>> = inp["records"].split('|').map(unshow).collect();
+            return Outcome { cases: 1, witness: c04_batch_cfg(&recs, k, norm, t.parse().unwrap(), inp["memory"].parse().ok()) };
+        }
         return Outcome { cases: 1, witness: c04_batch(&[s], k, norm) };
+    }
+    // one worker and many workers; a memory ceiling that splits the records into several batches (one record per batch and
+    // a few records per batch); blanks and tabs inside a record (they are bytes like any other non-nucleotide byte)
+    {
+        let recs: Vec<Vec<u8>> = vec![b"ACGTACGTTGCA".to_vec(), b"ACG TAC".to_vec(), b"AC\tGTACGGT".to_vec(), b"GGGTTTAAACCC".to_vec(), b"AC".to_vec(), b"TTGACCAGTAGGCAT".to_vec(), b"ACGNTAC".to_vec(), b"CCCCCCCCC".to_vec()];
+        for norm in [false, true] {
+            for threads in [1usize, 16] {
+                for memory in [None, Some(1usize), Some(20), Some(30)] {
+                    cases += recs.len() as u64;
+                    if let Some(w) = c04_batch_cfg(&recs, 3, norm, threads, memory) { return Outcome { cases, witness: Some(w) }; }
+                }
+            }
+        }
     }
     // exhaustive small strings in batches of one file per (k, norm)
     let alpha = b"ACGTNu";
@@ -161,6 +189,14 @@ pub fn c04(o: &Opts) -> Outcome {
                 return Outcome { cases, witness: Some(w) };
             }
         }
+    }
+    // every ratio a/(a+b) with small a, b on both writers: a value rendered from a narrower float type differs in the sixth decimal
+    {
+        let mut recs: Vec<Vec<u8>> = Vec::new();
+        for a in 1..=40usize { for b in [1usize, 2, 3, 7, 11, 29] { let mut r = vec![b'A'; a + 2]; r.push(b'N'); r.extend(vec![b'C'; b + 2]); recs.push(r); } }
+        cases += 2 * recs.len() as u64;
+        if let Some(w) = stdin_batch(&recs, 3, true) { return Outcome { cases, witness: Some(w) }; }
+        if let Some(w) = c04_batch_cfg(&recs, 3, true, 4, None) { return Outcome { cases, witness: Some(w) }; }
     }
     // the batched writer in normalised mode is only reachable with streamed input ("-"): drive it through a child process
     {
@@ -358,6 +394,28 @@ pub fn c05(o: &Opts) -> Outcome {
             let w = one(&recs, 2, norm, 2, 4 << 30, false, " ");
             std::env::remove_var("VERIF_STALE_OUTPUT");
             if let Some(mut w) = w { w.push(("stale_output".into(), "the output file existed before the run, holding 40 longer lines".into())); return Outcome { cases, witness: Some(w) }; }
+        }
+    }
+    // no record at all: with the header flag the output is exactly the column line, on both writers, whatever the worker count
+    for norm in [true, false] {
+        for threads in [1usize, 4] {
+            cases += 1;
+            let none: Vec<Vec<u8>> = Vec::new();
+            if let Some(mut w) = one(&none, 3, norm, threads, 4 << 30, true, " ") { w.push(("note".into(), "the input holds no record".into())); return Outcome { cases, witness: Some(w) }; }
+        }
+    }
+    // a record longer than any internal slice size between short ones: the same rows for every worker count on both writers
+    {
+        let long: Vec<u8> = (0..70_001usize).map(|i| b"ACGGTCATTGACCAGT"[(i * 7 + i / 13) % 16]).collect();
+        let recs: Vec<Vec<u8>> = vec![b"ACGTACGTTGCA".to_vec(), long, b"GGGTTTAAACCC".to_vec()];
+        for norm in [true, false] {
+            for threads in [1usize, 3, 16] {
+                cases += 1;
+                if let Some(mut w) = one(&recs, 3, norm, threads, 4 << 30, false, " ") {
+                    for kv in w.iter_mut() { if kv.0 == "records" { kv.1 = "ACGTACGTTGCA|<70001 bases: ACGGTCATTGACCAGT[(i*7 + i/13) % 16]>|GGGTTTAAACCC".into(); } }
+                    return Outcome { cases, witness: Some(w) };
+                }
+            }
         }
     }
     // records without bases at the end of the input (and everywhere): one all-zero row each on both writer paths
